@@ -279,5 +279,4 @@ package proxy
 //@ contract (*TCPProxy).forward
 //@   serves C07
 //@   requires[conns] upstream != nil && downstream != nil
-//@   requires[fresh-step] !spawned("(*TCPProxy).forward$1") && !spawned("(*TCPProxy).forward$2")
 //@   ensures[both-directions] spawned("(*TCPProxy).forward$1") && spawned("(*TCPProxy).forward$2")
